@@ -22,6 +22,8 @@ CORE_TYPES = ['void', 'boolean', 'integer', 'real', 'string', 'unique_id']
 
 # parameters of the four homes; `pa` and `pn` are declared with user-defined types
 HOME_PARAMS = [['pi', 'integer'], ['pb', 'boolean'], ['ps', 'string'], ['pr', 'real'], ['pa', 'Age_t'], ['pn', 'Name_t']]
+# the bridge home declares the SAME parameter names with OTHER types (a look-up keyed by name alone would mix them up)
+BRIDGE_PARAMS = [['pi', 'real'], ['pb', 'boolean'], ['ps', 'string'], ['pr', 'integer'], ['pa', 'Years_t'], ['pn', 'string']]
 
 SPEC = {
     # the enumerations share enumerator names (unknown, red); one constant is named like an enumerator, and two
@@ -46,42 +48,61 @@ SPEC = {
                  ['reset', False, 'void', [['val', 'integer']]],
                  ['home_op', True, 'void', HOME_PARAMS]]},
         {'kl': 'PER', 'name': 'Person',
+         # Age / Weight / count / getAge exist in DOG too, with OTHER types
          'attrs': [['Id', 'integer'], ['Name', 'string'], ['Rich', 'boolean'], ['Cash', 'real'],
-                   ['Share', 'Ratio_t'], ['Level', 'Age_t']],
+                   ['Share', 'Ratio_t'], ['Level', 'Age_t'], ['Age', 'real'], ['Weight', 'integer']],
          'refs': [], 'derived': [],
          'ops': [['greet', True, 'string', [['msg', 'string']]],
-                 ['total', False, 'real', []]]},
+                 ['total', False, 'real', []],
+                 ['count', False, 'real', []],
+                 ['getAge', True, 'string', []],
+                 ['home_cop', False, 'void', HOME_PARAMS]]},
         {'kl': 'LIC', 'name': 'License',
-         'attrs': [['Nr', 'integer'], ['Fee', 'real'], ['Valid', 'boolean']],
+         'attrs': [['Nr', 'integer'], ['Fee', 'real'], ['Valid', 'boolean'], ['Name', 'integer']],
          'refs': [], 'derived': [], 'ops': []},
     ],
     # number, one side, other side, phrases (one side -> other, other -> one), link class or None
     'rels': [[1, 'DOG', 'PER', "'is owned by'", "'owns'", None],
              [2, 'DOG', 'DOG', "'chases'", "'flees'", None],
              [3, 'PER', 'LIC', "'holds'", "'belongs_to'", None],
-             [4, 'DOG', 'PER', "'visits'", "'hosts'", 'LIC']],
+             [4, 'DOG', 'PER', "'visits'", "'hosts'", 'LIC'],
+             [5, 'DOG', 'DOG', "'leads'", "'follows'", None]],
     'functions': [['noop', 'void', []],
                   ['add', 'integer', [['a', 'integer'], ['b', 'integer']]],
                   ['check', 'boolean', [['flag', 'boolean'], ['name', 'string'], ['n', 'integer']]],
                   ['scale', 'real', [['x', 'real']]],
                   ['label', 'string', []],
                   ['top', 'inst_ref<Dog>', []],
+                  ['other', 'string', [['pi', 'string'], ['pb', 'integer'], ['a', 'real']]],
                   ['home_fn', 'void', HOME_PARAMS]],
     'ees': [['LOG', 'Logging', [['info', 'void', [['msg', 'string']]],
                                 ['level', 'integer', []],
                                 ['fmt', 'string', [['a', 'string'], ['b', 'integer'], ['c', 'boolean']]]]],
-            ['TIM', 'Time', [['now', 'integer', []], ['since', 'real', [['t', 'integer']]]]],
-            ['HOM', 'Home', [['home_brg', 'void', HOME_PARAMS]]]],
+            ['TIM', 'Time', [['now', 'integer', []], ['since', 'real', [['t', 'integer']]],
+                             ['level', 'real', []], ['info', 'string', [['msg', 'integer']]]]],
+            ['HOM', 'Home', [['home_brg', 'void', BRIDGE_PARAMS]]]],
     # user-defined types: name, the type it is based on (a core type or another user-defined type)
     'udts': [['Age_t', 'integer'], ['Years_t', 'Age_t'], ['Name_t', 'string'], ['Ratio_t', 'real'], ['Flag_t', 'boolean']],
     # state machine events per class: instance state machine (SM_ISM) and class / assigner state machine (SM_ASM):
     # (derived label, meaning)
-    'events': [['DOG', [['DOG1', 'bark heard'], ['DOG2', 'fed']], [['DOG_A1', 'tick']]],
-               ['PER', [['PER1', 'paid']], []]],
+    # SHARED1 / SHARED_A exist on both classes (same label and meaning, different SM_EVT instances)
+    'events': [['DOG', [['DOG1', 'bark heard'], ['DOG2', 'fed'], ['SHARED1', 'ping']], [['DOG_A1', 'tick'], ['SHARED_A', 'pong']]],
+               ['PER', [['PER1', 'paid'], ['SHARED1', 'ping']], [['SHARED_A', 'pong']]]],
 }
 
-HOMES = ['function', 'bridge', 'operation', 'derived']
-HOME_SELF = {'function': None, 'bridge': None, 'operation': 'DOG', 'derived': 'DOG'}
+# action homes: function, bridge, instance-based operation, derived attribute, class-based operation, state action;
+# 'common' is not a home but the kind of body that is valid in every home (no parameters, no self)
+HOMES = ['function', 'bridge', 'operation', 'derived', 'cop', 'state']
+HOME_SELF = {'function': None, 'bridge': None, 'operation': 'DOG', 'derived': 'DOG', 'cop': None, 'state': 'DOG',
+             'common': None}
+
+
+def home_params(home):
+    if home in ('function', 'operation', 'cop'):
+        return HOME_PARAMS
+    if home == 'bridge':
+        return BRIDGE_PARAMS
+    return []
 
 
 def class_of(kl):
@@ -203,6 +224,8 @@ def build_base(m, xtuml):
                 prev = o_tparm
             if name == 'home_op':
                 homes['operation'] = o_tfr
+            if name == 'home_cop':
+                homes['cop'] = o_tfr
     for numb, a, b, ph_ab, ph_ba, link in SPEC['rels']:
         pe(m.new('R_REL', Numb=numb))
     for kl, ism, asm in SPEC['events']:
@@ -211,6 +234,18 @@ def build_base(m, xtuml):
                 continue
             sm_sm = m.new('SM_SM')
             m.new(kind, Obj_ID=objs[kl].Obj_ID, SM_ID=sm_sm.SM_ID)
+            if kl == 'DOG' and kind == 'SM_ISM':
+                # the state-action home: a state of DOG's instance state machine with its action
+                sm_state = m.new('SM_STATE', Name='Idle', Numb=1)
+                sm_act = m.new('SM_ACT')
+                sm_ah = m.new('SM_AH')
+                sm_moah = m.new('SM_MOAH')
+                assert rel(sm_state, sm_sm, 501)
+                assert rel(sm_act, sm_sm, 515)
+                assert rel(sm_ah, sm_act, 514)
+                assert rel(sm_moah, sm_ah, 513)
+                assert rel(sm_moah, sm_state, 511)
+                homes['state'] = sm_act
             for numb, (label, meaning) in enumerate(events):
                 m.new('SM_EVT', SM_ID=sm_sm.SM_ID, SMspd_ID=m.id_generator.next(), Numb=numb + 1,
                       Drv_Lbl=label, Mning=meaning)
@@ -269,7 +304,7 @@ def ctx_sexp(home):
     ees = [[kl, [[bn, ret] for bn, ret, _ in bridges]] for kl, _, bridges in SPEC['ees']]
     enums = [[n, es] for n, es in SPEC['enums']]
     consts = [[g, [[n, t] for n, t, _ in cs]] for g, cs in SPEC['consts']]
-    params = [[n, t] for n, t in HOME_PARAMS] if home != 'derived' else []
+    params = [[n, t] for n, t in home_params(home)]
     self_kl = HOME_SELF[home]
     return [Sym('ctx'), classes, funcs, ees, enums, consts, params, self_kl if self_kl else Sym('none')]
 
@@ -470,7 +505,7 @@ class ProgramGen(object):
                     attr_src.append('selected.%s' % n)
         if attr_src:
             opts += ['attr', 'attr']
-        if self.home != 'derived' and any(core_type(t) == ty for _, t in HOME_PARAMS):
+        if any(core_type(t) == ty for _, t in home_params(self.home)):
             opts.append('param')
         for g, cs in SPEC['consts']:
             if any(t == ty for _, t, _ in cs):
@@ -547,7 +582,7 @@ class ProgramGen(object):
             return r.choice(attr_src), False
         if k == 'param':
             return '%s.%s' % (r.choice(['param', 'param', 'PARAM']),
-                              r.choice([n for n, t in HOME_PARAMS if core_type(t) == ty])), False
+                              r.choice([n for n, t in home_params(self.home) if core_type(t) == ty])), False
         if k == 'const':
             cands = ['%s::%s' % (g, n) for g, cs in SPEC['consts'] for n, t, _ in cs if t == ty]
             if cands:
@@ -927,7 +962,43 @@ def render(prog, style_rng, vary=True, indent=0):
             lines.append(render(st[3], r, vary, indent + 1))
             lines.append(pad + _end(r, 'for', vary) + ';')
     sep = '\n'
-    return sep.join(x for x in lines if x != '')
+    text = sep.join(x for x in lines if x != '')
+    if indent == 0 and vary:
+        text = _noise(r, text)
+    return text
+
+
+_TOKEN = None
+
+
+def _noise(r, text):
+    """surface noise on a whole rendered body, outside string literals, ticked phrases and comments:
+    every keyword occurrence - in ANY syntactic position, also inside where clauses, parameter lists, event
+    specifications - is re-spelled in upper / capitalised letters with probability 0.15 (identifiers are never
+    keywords here, and are left alone); multi-line block comments inside statements (after a comma); a final `//`
+    comment without a newline after it; CRLF line ends; tabs for indentation"""
+    global _TOKEN
+    import re
+    if _TOKEN is None:
+        _TOKEN = re.compile(r'/\*.*?\*/|//[^\n]*|"[^"\n]*"|\'[^\'\n]*\'|[A-Za-z_][A-Za-z_0-9]*|.', re.S)
+    out = []
+    for tok in _TOKEN.findall(text):
+        if tok.lower() in KEYWORDS and tok == tok.lower() and r.random() < 0.15:
+            tok = tok.upper() if r.random() < 0.5 else tok.capitalize()
+        elif tok == ',' and r.random() < 0.04:
+            tok = ', /* a comment over\n   two lines */'
+        out.append(tok)
+    text = ''.join(out)
+    w = r.random()
+    if w < 0.08:
+        text = text + ' // the last line is a comment'
+    elif w < 0.12:
+        text = text + '\n/* closing\n\ncomment */'
+    if r.random() < 0.1:
+        text = '\n'.join(('\t' * ((len(ln) - len(ln.lstrip(' '))) // 2) + ln.lstrip(' ')) for ln in text.split('\n'))
+    if r.random() < 0.1:
+        text = text.replace('\n', '\r\n')
+    return text
 
 
 def _cond(r, cond, follower):
